@@ -64,6 +64,7 @@ pub fn replay_value(rp: &Value) -> Vec<String> {
         "isa-l1" => isaeng::replay_l1(rp),
         "isa-prog" => isaeng::replay_prog(rp),
         "isa-l4" => isaeng::replay_l4(rp),
+        "isa-l6" => isaeng::replay_l5(rp),
         "mem" => memeng::replay(rp),
         "ctx" => ctxeng::replay(rp),
         "api" => apieng::replay(rp),
